@@ -18,14 +18,15 @@ _m(
         "size rule itself is not judged",
         "all images of a stack have one shape (preprocess sizes the canvas from images[0] rows and images[1] columns)",
         "coordinates: 1e-9 px absolute against the float64 closed form (clean tree <= 2e-14 px)",
-        "weight sum: rtol 1e-4 (float32 accumulators; clean tree <= 3e-7); centroid of the weight map == canvas centre to "
-        "1e-3 px, only judged when every pixel is >= int(4 sigma + 0.5) + 2 px inside the canvas (no wrap, no reflection); "
-        "clean tree <= 2e-5 px",
-        "fixed point: knots may move <= 5e-3 px.  align_translation correlates the float32 warped images, numpy returns "
-        "complex64 FFTs, and the parabolic sub-pixel vertex of a complex64 auto-correlation is only zero to rounding: "
-        "measured maxima over 2100 identical stacks 2.9e-4 px (upsample_factor 1), 7e-6 (2), 1.2e-5 (8); the estimator's "
-        "own resolution is 1/upsample_factor px and the smallest bias the property is about (half an upsampled pixel) is "
-        ">= 0.03 px",
+        "weight sum: rtol 1e-4 (float32 accumulators; clean tree <= 2.4e-7); centroid of the weight map == canvas centre to "
+        "1e-4 px, only judged when every pixel is >= int(4 sigma + 0.5) + 2 px inside the canvas (no wrap, no reflection); "
+        "clean tree <= 7e-8 px",
+        "fixed point: knots may move <= max(1e-6, 20 * eps32 * A(0) / min curvature of A at lag 0) px, A = float64 "
+        "auto-correlation of the warped image computed by the harness.  align_translation correlates the float32 warped "
+        "images (numpy gives complex64 FFTs), so the parabolic sub-pixel vertex of the zero-lag peak is only zero to "
+        "rounding, ~ eps32 * peak / curvature px; measured movement / that figure <= 0.93 over 1200 random and <= 0.61 over "
+        "3000 Hypothesis-targeted identical stacks (absolute: <= 5.4e-4 px at upsample_factor 1, <= 4e-5 at 2 and 8; "
+        "allowance is typically 1e-5..1e-3 px, at most ~0.09 px for sigma 2 / contrast 0.3, vs. 0.25 px for the defect)",
         "fixed point: images_warped is compared before/after with tolerance 2e-5 + K * value range * (observed knot "
         "movement): the warp is Lipschitz in a uniform knot shift; with unit point density the KDE count has slope <= "
         "TV(kernel) ~ 2.8 per px, so K <= 2.8/0.5 ~ 6 where the count is >= 0.5 (K = 10 used, measured <= 1.2) and K <= "
